@@ -5,4 +5,7 @@ cd /verif/harness
 export GOFLAGS=-mod=mod GOPROXY=off GOSUMDB=off GOTOOLCHAIN=local GOWORK=off CGO_ENABLED=1
 mkdir -p /verif/bin /verif/evidence /verif/replays
 go build -tags verif -o /verif/bin/mcx ./cmd/mcx
+# warm the build cache for the specially built binaries of C13 (race-instrumented child, map-order tool)
+go build -race -tags verif -o /verif/bin/mcxrace ./cmd/mcxrace
+go build -o /verif/bin/maprewrite ./cmd/maprewrite
 echo "setup ok"
